@@ -3,6 +3,7 @@ import RisorModel.C10.Model
 import RisorModel.C10.ModelExt
 import RisorModel.C10.ModelCall
 import RisorModel.C10.ModelWide
+import RisorModel.C10.ModelCap
 /-!
 Line-protocol front end of the C10 model (requests after the leading `C10` field).
 
@@ -39,6 +40,8 @@ Line-protocol front end of the C10 model (requests after the leading `C10` field
   wide <vars,…> <wop,wop,…>           → <obs,…> TAB <final vars v.v.v>        (call statements with any number of arguments; spawned calls run after the last statement)
        wop := a:i:v | d:req:D.D.D:A.A.A (direct call) | s:req:D.D.D:A.A.A (spawned call)     D.D.D = the default values of the parameters after the `req` required ones (`-` if none), A as in spawn
        obs := p:v.v.v (the parameter values the call binds) | E (the arity error is raised)     one per call statement
+  capseq <cap> <op,op,…>              → <impl obs,…> TAB <queue length after each step,…> TAB <sendBlocks after each step 0|1,…> TAB <recvBlocks after each step 0|1,…> TAB <final queue i:k;i:k;… | -> TAB <received i:k;… | -> TAB <accepted i:k;… | -> TAB ok|violated
+       (capacity stream: op/obs as in chanops; ok = queue length <= cap after every step and received ++ queue = accepted, the statements of PropsCap evaluated on this schedule)
 -/
 namespace Risor.C10
 open Risor.Util
@@ -266,6 +269,21 @@ def handle : List String → String
       let (spec, _) := trace specStep (init cap) ops
       joinC (impl.map showObs) ++ "\t" ++ joinC (spec.map showObs) ++ "\t" ++ toString (atMostOneIterator ops)
         ++ "\t" ++ toString cf.buf.length ++ ":" ++ toString cf.closed ++ ":" ++ toString cf.rx
+    | _, _ => "error\tbad-request"
+  | ["capseq", cap, ops] =>
+    match natOf cap, (listOf "," ops).mapM parseOp with
+    | some cap, some ops =>
+      let (tr, cf) := capTrace (init cap) ops
+      let obs := tr.map (·.1)
+      -- the enabled steps with their observations, for `received` / `accepted`
+      let en := (ops.zip obs).filterMap fun (o, ob) => ob.map fun x => (o, x)
+      let rcv := received (en.map (·.2))
+      let acc := accepted (en.map (·.1)) (en.map (·.2))
+      let showQ := fun (q : List Msg) => if q.isEmpty then "-" else ";".intercalate (q.map showMsg)
+      let ok := tr.all (fun x => decide (x.2.1 ≤ cap)) && decide (rcv ++ cf.buf = acc)
+      joinC (obs.map showObs) ++ "\t" ++ joinC (tr.map fun x => toString x.2.1) ++ "\t" ++ joinC (tr.map fun x => b01 x.2.2.1)
+        ++ "\t" ++ joinC (tr.map fun x => b01 x.2.2.2) ++ "\t" ++ showQ cf.buf ++ "\t" ++ showQ rcv ++ "\t" ++ showQ acc
+        ++ "\t" ++ (if ok then "ok" else "violated")
     | _, _ => "error\tbad-request"
   | ["hist", counts, recv] =>
     match (listOf "," counts).mapM natOf, ((if recv = "" then [] else recv.splitOn ";").mapM fun r => (listOf "," r).mapM parseMsg) with
